@@ -33,6 +33,10 @@ pub struct Msg {
 }
 
 fn payload(m: &Msg) -> Vec<u8> {
+    // payloads of one or two bytes carry the fill byte itself (so every one-byte payload value can be addressed)
+    if m.len <= 2 {
+        return [m.fill, m.fill ^ 0x55][..m.len].to_vec();
+    }
     let mut x = m.fill as u32 ^ 0x9E37;
     (0..m.len)
         .map(|i| {
@@ -164,6 +168,17 @@ pub fn check_message(ctx: &mut Ctx, m: &Msg) -> Result<(), String> {
         } else {
             let got = r.ok_or_else(|| format!("no message delivered on the last packet ({} packets, {} bytes)", packets.len(), m.len))?;
             same(m, &got)?;
+            // the message as delivered is a message like any other: sent on (an echo, a relay) it is written as the same
+            // packets and arrives again
+            let mut rec = Recorder(vec![]);
+            catch_unwind(AssertUnwindSafe(|| got.send(&mut rec))).map_err(|_| format!("sending a delivered message on panicked: {}", crate::last_panic()))?.map_err(|e| format!("sending a delivered message on failed: {e}"))?;
+            check_packets(m, &rec.0).map_err(|e| format!("a delivered message sent on again: {e}"))?;
+            let mut h3 = ChannelHandler::default();
+            let mut echoed = None;
+            for p in &rec.0 {
+                echoed = h3.handle_packet(p);
+            }
+            same(m, &echoed.ok_or("a delivered message sent on again is not delivered by the next receiver")?).map_err(|e| format!("a delivered message sent on again: {e}"))?;
         }
     }
     // orphan continuation on a fresh receiver
@@ -188,6 +203,10 @@ pub struct Merge {
     /// the receiver still holds them when the messages proper start on the same channels
     #[serde(default)]
     pub abandoned: Vec<(usize, usize, u8, usize)>,
+    /// stray continuation packets of channels on which nothing is in progress: (position in the order, sequence number);
+    /// they yield nothing and disturb nobody
+    #[serde(default)]
+    pub strays: Vec<(usize, u8)>,
 }
 
 pub fn check_merge(ctx: &mut Ctx, mg: &Merge) -> Result<(), String> {
@@ -218,7 +237,21 @@ pub fn check_merge(ctx: &mut Ctx, mg: &Merge) -> Result<(), String> {
             ctx.class("merge/after an abandoned transmission on the same channel");
         }
     }
+    // a channel id none of the messages uses
+    let idle_channel = (0u32..).map(|k| 0x5151_0000u32.wrapping_add(k)).find(|c| mg.msgs.iter().all(|m| m.channel != *c)).unwrap();
     for (step, &ch) in mg.order.iter().enumerate() {
+        for (at, seq) in &mg.strays {
+            if *at == step {
+                let mut p = vec![0u8; 64];
+                p[..4].copy_from_slice(&idle_channel.to_ne_bytes());
+                p[4] = seq & 0x7f;
+                p[5..].iter_mut().for_each(|b| *b = 0x5A);
+                if catch_unwind(AssertUnwindSafe(|| h.handle_packet(&p))).map_err(|_| format!("handle_packet panicked: {}", crate::last_panic()))?.is_some() {
+                    return Err(format!("step {step}: a continuation packet for a channel with no message in progress yielded a message"));
+                }
+                ctx.class("merge/with stray continuation packets of an idle channel");
+            }
+        }
         if ch >= streams.len() || pos[ch] >= streams[ch].len() {
             continue;
         }
@@ -298,7 +331,7 @@ fn msg() -> impl Strategy<Value = Msg> {
 
 pub fn run(ctx: &mut Ctx) {
     let fs = ctx.first_shard();
-    ctx.rule = "messages over channel ids (0, broadcast, random), all nine commands, payload lengths (every value 0..=7700, 65535/65536/70000, random) with zero / 0xFF / pseudo-random contents: sender output parsed by an independent packet parser and fed to a fresh receiver. Sequences of 1-6 transmissions through one receiver (a third of them repeat the transmission before). Interleavings of 2-4 channels: ALL order-preserving merges when the streams have at most 9 packets in total, generated merges otherwise (uniformly mixed ones with up to 26 packets per channel, and skewed ones in which one channel pauses inside its message while others send whole messages of up to 129 packets and a further channel starts only afterwards; a third of the generated merges run on a receiver that still holds given-up transmissions on the same channels). Non-trivial = message with at least one continuation packet, a refused over-long payload, or a merge of at least two channels; distinct by message / by (messages, order).".into();
+    ctx.rule = "messages over channel ids (0, broadcast, random), all nine commands, payload lengths (every value 0..=7700, 65535/65536/70000, random) with zero / 0xFF / pseudo-random contents: sender output parsed by an independent packet parser and fed to a fresh receiver; the delivered message is sent on again and must arrive at the next receiver unchanged. Sequences of 1-6 transmissions through one receiver (a third of them repeat the transmission before), and every command with every one-byte payload value followed by transmissions on other channels. Interleavings of 2-4 channels: ALL order-preserving merges when the streams have at most 9 packets in total, generated merges otherwise (uniformly mixed ones with up to 26 packets per channel, and skewed ones in which one channel pauses inside its message while others send whole messages of up to 129 packets and a further channel starts only afterwards; a third of the generated merges run on a receiver that still holds given-up transmissions on the same channels, half of them see stray continuation packets of an idle channel). Non-trivial = message with at least one continuation packet, a refused over-long payload, or a merge of at least two channels; distinct by message / by (messages, order).".into();
     ctx.assumptions = vec![
         "the channel id byte order is accepted as either endianness but must be the same in all packets and round-trip".into(),
         "only messages the sender accepts are constrained; refusals at or below 7609 bytes are measured (Message::new refuses exactly 7609)".into(),
@@ -344,7 +377,7 @@ pub fn run(ctx: &mut Ctx) {
             let msgs: Vec<Msg> = shape.iter().enumerate().map(|(i, packets)| Msg { channel: [7u32, 0xFFFF_FFFF, 0, 0x0A0B_0C0D][i], cmd: (i * 2 + rot + si) % 9, len: if *packets == 1 { 8 + i } else { 57 + 59 * (packets - 2) + 1 + i }, fill: (i + 1) as u8 }).collect();
             for order in all_merges(shape) {
                 enumerated += 1;
-                let mg = Merge { msgs: msgs.clone(), order, abandoned: vec![] };
+                let mg = Merge { msgs: msgs.clone(), order, abandoned: vec![], strays: vec![] };
                 if let Err(e) = check_merge(ctx, &mg) {
                     ctx.violation("merges-exhaustive", json!(mg), &e);
                     break 'merges;
@@ -360,12 +393,19 @@ pub fn run(ctx: &mut Ctx) {
             m.channel = m.channel.wrapping_mul(4).wrapping_add(i as u32);
             m.len %= 1500;
         }
-        Merge { msgs, order, abandoned: vec![] }
+        Merge { msgs, order, abandoned: vec![], strays: vec![] }
     });
     // a third of the generated merges start on a receiver that still holds given-up transmissions of the same channels
     let strat = (strat, proptest::collection::vec((0usize..4, prop_oneof![58usize..400, 400usize..7609], any::<u8>(), 1usize..6), 0..3), 0u8..3).prop_map(|(mut mg, abandoned, sel)| {
         if sel == 0 {
             mg.abandoned = abandoned;
+        }
+        mg
+    });
+    // half of them see a few stray continuation packets of an idle channel on the way (sequence numbers 0..3 mostly)
+    let strat = (strat, proptest::collection::vec((0usize..60, prop_oneof![4 => 0u8..4, 1 => any::<u8>()]), 0..4), any::<bool>()).prop_map(|(mut mg, strays, on)| {
+        if on {
+            mg.strays = strays;
         }
         mg
     });
@@ -393,6 +433,24 @@ pub fn run(ctx: &mut Ctx) {
         Search::Pass => {}
         Search::Fail(m, e) => ctx.violation("sequences", json!(m), &e),
     }
+    // ---- every command with every one-byte payload value, followed by transmissions on two other channels through the same
+    // receiver: no message's command or content may change what happens to the messages of other channels
+    if fs {
+        'sweep: for cmd in 0..9usize {
+            for b in 0..=255u8 {
+                let seq = vec![
+                    Msg { channel: 0x0101_0101, cmd, len: 1, fill: b },
+                    Msg { channel: 0x0202_0202, cmd: (cmd + 3) % 9, len: 70 + (b as usize % 60), fill: b.wrapping_add(1) | 1 },
+                    Msg { channel: 0x0303_0303, cmd: (cmd + 5) % 9, len: 1 + (b as usize % 2), fill: b },
+                    Msg { channel: 0x0101_0101, cmd: (cmd + 1) % 9, len: 9, fill: 7 },
+                ];
+                if let Err(e) = check_sequence(ctx, &seq) {
+                    ctx.violation("sequences", json!(seq), &e);
+                    break 'sweep;
+                }
+            }
+        }
+    }
     // ---- skewed interleavings: one channel pauses in the middle of its message while the others transmit long runs
     // (whole maximum-size messages), and another channel only starts once the pause has lasted
     let packets_of = |len: usize| if len <= 57 { 1 } else { 1 + (len - 57).div_ceil(59) };
@@ -416,7 +474,7 @@ pub fn run(ctx: &mut Ctx) {
                 order.extend(std::iter::repeat(0).take(packets_of(paused_len)));
             }
             order.extend(tail);
-            Merge { msgs, order, abandoned: vec![] }
+            Merge { msgs, order, abandoned: vec![], strays: vec![] }
         },
     );
     let n = ctx.tier.pick(400u32, 60_000u32);
